@@ -49,6 +49,10 @@ func c17Hashes() []crypto.Hash {
 	return append(out, 255)
 }
 
+// c17Logs: the empty log (invalid) and non-empty ones — among them logs made only of white space or NUL octets:
+// a log of one line feed is a log of one octet.
+var c17Logs = []string{"", "event-x", "event-y", "\n", " \t \r\n", "\x00"}
+
 func c17Alphabet() []c17op {
 	var ops []c17op
 	a := world.Fill("digest-A", 64)
@@ -82,7 +86,10 @@ func c17Alphabet() []c17op {
 	}
 	for _, idx := range []int{-1, 0, 1, 2, 3, 4} {
 		for _, h := range c17Hashes() {
-			for _, lg := range []string{"", "event-x", "event-y"} {
+			for li, lg := range c17Logs {
+				if li >= 3 && (h != crypto.SHA384 || (idx != 0 && idx != 3)) {
+					continue // the white-space logs with the valid algorithm only (they are about what counts as empty)
+				}
 				idx, h, lg := idx, h, lg
 				sum := sha512.Sum384([]byte(lg))
 				ops = append(ops, c17op{name: fmt.Sprintf("eventlog(idx=%d,hash=%d,log=%q)", idx, h, lg), valid: idx >= 0 && idx <= 3 && h == crypto.SHA384 && lg != "", index: idx, digest: sum[:],
@@ -444,8 +451,10 @@ func (b *c17bufs) log(lg string) []byte {
 		return b.buf[0:7]
 	case "event-y":
 		return b.buf[7:14]
+	case "":
+		return b.buf[0:0]
 	}
-	return b.buf[0:0]
+	return append(make([]byte, 0, 64), lg...)
 }
 
 func (b *c17bufs) digest(which, ln int) []byte { return b.buf[14+64*which : 14+64*which+ln] }
